@@ -158,7 +158,7 @@ class Engine:
                 continue
             if k == "keyalias":
                 if not self.keyalias_ok:
-                    bad.append((("field", f.qualname, "terms[k] = k"), "a term equal to its own (unquoted) column name, which enc_term_ no longer quotes"))
+                    bad.append((("field", f.qualname, "terms[k] = k"), "a raw column name stored as a term (pass-through terms are None; a name is not SQL text)"))
                 continue
             if k == "call":
                 continue  # an unmodelled call contributes its arguments' leaves; the call itself is recorded below
@@ -184,21 +184,25 @@ class Engine:
 
 def _side_conditions(program, res, eng):
     """facts the triage relies on, re-derived from the source on every run"""
-    # (a) enc_term_: a term that is None or equal to its key is emitted as quote_identifier(key)
+    # (a) enc_term_ decides "this is the column itself" by the term being absent (None), never by comparing the term's SQL text with the
+    # column name: the text of an expression can coincide with a name (extend({'1': '1'}) has the term `1` under the name '1')
     et = eng.sm.methods["enc_term_"]
-    ok = False
     from .. import pat
     kparam = [p_ for p_ in et.params() if p_ not in ("self", "terms")][0]
-    for n in ast.walk(et.node):
-        if isinstance(n, ast.If) and any(e.get("_K") == kparam or e.get("_V") == kparam for (_c, e) in pat.find("_V == _K", n.test)) and any(
-                isinstance(b, ast.Return) and unparse(b.value) == f"self.quote_identifier({kparam})" for b in n.body):
-            ok = True
-    eng.keyalias_ok = ok
-    if ok:
-        res.ok("C14-S1", "enc_term_: a term that is None or equals its own column name is emitted as quote_identifier(name)")
+    cmp_ = [n for n in ast.walk(et.node) if isinstance(n, ast.Compare) and len(n.ops) == 1 and isinstance(n.ops[0], (ast.Eq, ast.NotEq))
+            and any(isinstance(x, ast.Name) and x.id == kparam for x in [n.left] + list(n.comparators))]
+    none_branch = any(isinstance(n, ast.If) and "is None" in unparse(n.test) and any(
+        isinstance(b_, ast.Return) and unparse(b_.value) == f"self.quote_identifier({kparam})" for b_ in n.body) for n in ast.walk(et.node))
+    if cmp_:
+        res.fail_at("C14-S1", et, "term-text-compared-with-column-name",
+                    f"enc_term_ treats a term whose SQL text equals the column name (`{unparse(cmp_[0])}`) as the column itself and emits only the quoted name: "
+                    f"extend({{'1': '1'}}) emits `\"1\"` instead of `1 AS \"1\"` — an identifier where a literal was written (SQLite returns a column named "
+                    f"'\"1\"' holding the string '1')", cmp_[0])
+    elif none_branch:
+        res.ok("C14-S1", "enc_term_: a pass-through term is None and is emitted as quote_identifier(name); computed terms are always `text AS name`")
     else:
-        res.fail_at("C14-S1", et, "enc-term-alias-branch", "enc_term_ no longer emits quote_identifier(k) for a term equal to its own name; "
-                    "steps that store terms[k] = k now splice the raw name")
+        res.fail_at("C14-S1", et, "enc-term-passthrough", "enc_term_ no longer emits quote_identifier(name) for a pass-through (None) term")
+    eng.keyalias_ok = False   # a raw column name stored as a term (terms[k] = k) would be spliced unquoted, or trigger the comparison above
     # (b) field-level sanitiser: jointype is only ever a constant or the result of standardize_join_type, which admits a fixed vocabulary
     sj = program.module("expr_rep").functions.get("standardize_join_type")
     if sj is None:
@@ -521,22 +525,50 @@ def _s3(program, res):
                     res.fail_at("C14-S3", ca, "cleaned-text-overwritten", f"`{unparse(st)[:70]}` after the line-break removal replaces or re-breaks the cleaned text", st)
         if ok:
             res.ok("C14-S3", f"_clean_annotation: re.sub({good[0][1]!r}, {good[0][2]!r}) removes every line terminator and dominates every text return")
-    # comment sites: constants containing `--`
+    # does the cleaner also neutralise a block-comment terminator?
+    block_safe = any(isinstance(c, ast.Call) and ((isinstance(c.func, ast.Attribute) and c.func.attr == "replace" and c.args
+                                                    and isinstance(c.args[0], ast.Constant) and c.args[0].value == "*/")
+                                                   or (dotted_name(c.func) == "re.sub" and c.args and isinstance(c.args[0], ast.Constant)
+                                                       and "\\*/" in str(c.args[0].value))) for c in ast.walk(ca.node))
+    # comment sites: constants containing `--` or `/*`
     eng = Engine(program, res)
     n_sites = 0
     for f in program.all_functions():
         if f.module.name not in ("sql_model", "near_sql", "db_model", "SQLite", "PostgreSQL", "MySQL", "BigQuery", "SparkSQL"):
             continue
+        inner_adds = {id(ch) for n_ in ast.walk(f.node) if isinstance(n_, ast.BinOp) and isinstance(n_.op, ast.Add)
+                      for ch in (n_.left, n_.right) if isinstance(ch, ast.BinOp) and isinstance(ch.op, ast.Add)}
         for node in ast.walk(f.node):
             parts = None
-            if isinstance(node, ast.BinOp) and isinstance(node.op, ast.Add) and isinstance(node.left, ast.Constant) and isinstance(node.left.value, str) \
-                    and "--" in node.left.value:
-                parts = [node.right]
-            elif isinstance(node, ast.JoinedStr) and node.values and isinstance(node.values[0], ast.Constant) and "--" in str(node.values[0].value):
+            opener = None
+            if isinstance(node, ast.BinOp) and isinstance(node.op, ast.Add):
+                if id(node) in inner_adds:
+                    continue
+                ops_ = []
+                stack_ = [node]
+                while stack_:
+                    x_ = stack_.pop()
+                    if isinstance(x_, ast.BinOp) and isinstance(x_.op, ast.Add):
+                        stack_.append(x_.right)
+                        stack_.append(x_.left)
+                    else:
+                        ops_.append(x_)
+                first = ops_[0]
+                if isinstance(first, ast.Constant) and isinstance(first.value, str) and ("--" in first.value or "/*" in first.value):
+                    opener = "/*" if "/*" in first.value else "--"
+                    parts = [o for o in ops_[1:] if not isinstance(o, ast.Constant)]
+            elif isinstance(node, ast.JoinedStr) and node.values and isinstance(node.values[0], ast.Constant) and (
+                    "--" in str(node.values[0].value) or "/*" in str(node.values[0].value)):
                 parts = [v.value for v in node.values if isinstance(v, ast.FormattedValue)]
-            if parts is None:
+                opener = "/*" if "/*" in str(node.values[0].value) else "--"
+            if not parts:
                 continue
             n_sites += 1
+            if opener == "/*" and not block_safe:
+                res.fail_at("C14-S3", f, "block-comment-text-can-close-the-comment",
+                            f"{f.qualname} places `{unparse(parts[0])[:50]}` inside a /* … */ comment; _clean_annotation removes line breaks only, so a `*/` in the "
+                            f"text (the repr of a user literal, a column name, a label) closes the comment and the rest is read as SQL", node)
+                continue
             bad = []
             for pt in parts:
                 for l in eng.slicer.leaves(eng.scope_for(f), pt):
